@@ -722,3 +722,191 @@ def rule_unit_merge(ck, facts, R):
             else:
                 ck.bad(R, key, "%s looks a merge input (%s) up in the register table without first excluding `Value::None`: an `if` / `match` whose branch or arm has no value (`if (c) { f() }`, `_ => { x = x + 1.0 }`) makes the bytecode generator panic (`value none not found`) while the WASM generator compiles it" % (g.short, what), g.where(t))
     ck.floor(R, "merge_input_lookups", n, 3)
+
+
+# --------------------------------------------------------------------------------------------------
+# host defaults: the sample rate a program sees before the host has configured anything (globals are evaluated by
+# `main`, which every front end runs before the driver is initialised)
+def rule_default_rate(ck, facts, R):
+    import re
+    import struct
+
+    ck.rule(R, "every constructor that gives a sample-rate field (sample_rate / samplerate / sr) of a runtime, driver or option struct a literal initial value uses the same value: `main` runs before the host configures the rate, so a global like `let sr = samplerate` sees the default of whichever back end evaluates it")
+    pat = re.compile(r"^(sample_?rate|sr)$")
+    vals = []
+    for cn in ("mimium_lang", "mimium_audiodriver", "mimium_cli"):
+        try:
+            cr = facts.crate(cn)
+        except KeyError:
+            continue
+        for f in cr.fns:
+            if f.kind == "promoted" or "::test" in f.path:
+                continue
+            for _, st in f.all_stmts():
+                if st[KIND] != "a" or st[5][0] != "agg" or st[5][1][0] != "adt":
+                    continue
+                adt = cr.adts.get(st[5][1][1])
+                if adt is None or adt["enum"]:
+                    continue
+                names = [x[0] for x in adt["variants"][0]["f"]]
+                if len(names) != len(st[5][2]):
+                    continue
+                for nm, op in zip(names, st[5][2]):
+                    if not pat.match(nm):
+                        continue
+                    v = None
+                    if op[0] == "c" and op[1] == "f" and str(op[-1]).isdigit():
+                        v = struct.unpack("<d", struct.pack("<Q", int(op[-1])))[0]
+                    elif op[0] == "c" and op[1] == "i":
+                        v = float(int(op[-1]))
+                    elif op[0] in ("cp", "mv"):
+                        # SampleRate::from(48000) and similar one-argument wrappers of a literal
+                        from ..cfg import DefIndex
+
+                        r = DefIndex(f).resolve(op)
+                        if r[0] == "call" and len(r[1][5]) == 1 and r[1][5][0][0] == "c" and r[1][5][0][1] == "i":
+                            v = float(int(r[1][5][0][-1]))
+                    if v is not None:
+                        vals.append((v, f, st, "%s.%s" % (st[5][1][1].split("::")[-1], nm)))
+    ck.floor(R, "literal_default_rates", len(vals), 4)
+    if not vals:
+        return
+    from collections import Counter
+
+    major = Counter(v for v, _, _, _ in vals).most_common(1)[0][0]
+    for v, f, st, what in vals:
+        key = "default-rate|%s|%s" % (what, f.short.split("::")[-1])
+        if v == major:
+            ck.ok(R, key, {"field": what, "in": f.short, "value": v})
+        else:
+            ck.bad(R, key, "%s initialises %s with %s where the other %d constructors use %s: a program that reads `samplerate` while its globals are evaluated (before the host sets the rate) computes different values on the two back ends" % (f.short, what, v, sum(1 for x in vals if x[0] == major), major), f.where(st))
+
+
+# --------------------------------------------------------------------------------------------------
+# closure state lifetime: the VM keeps a closure's state cells inside the closure object (fresh object, fresh state);
+# the WASM host keeps them in a map keyed by the closure's linear-memory address and fills it lazily
+def rule_closure_state(ck, facts, R):
+    from ..cfg import reachable
+    from ..facts import const_fn, const_str, place_fields
+    from ..rules import cover
+    from ..rules.chainwalk import map_field
+    from ..cfg import DefIndex
+
+    ck.rule(R, "the WASM host keys per-closure state by the closure's address and creates the entry lazily; addresses come from a bump allocator that is rewound after every tick, so they repeat: every arm of the WASM generator that creates a closure value (MIR MakeClosure / Closure) emits a call of the host import that forgets the entry of that address (chain derived on every run: host function removing from the state map -> its registered import name -> the generator's import slot -> the emitters reading that slot -> the arms). Without it a closure made inside dsp inherits the state of the closure that occupied the address in the previous tick, while the VM starts it from zero")
+    lang = facts.crate("mimium_lang")
+    # the lazily filled map
+    lazy = None
+    for f in lang.fns:
+        if "::runtime::wasm" not in f.path or f.kind == "promoted" or "::test" in f.path:
+            continue
+        di = None
+        for b, t in f.calls():
+            c = callee(t) or ""
+            if c.split("::")[-1] == "entry" and "HashMap" in c and t[5]:
+                di = di or DefIndex(f)
+                fld = map_field(f, di, t[5][0])
+                if fld and fld.endswith("closure_states"):
+                    lazy = (f, t, fld)
+    ck.require(R, lazy is not None, "anchor|closure-state-map", "the lazily filled per-closure state map of the WASM host was not found")
+    if lazy is None:
+        return
+    fld = lazy[2]
+    removers = []
+    for f in lang.fns:
+        if "::runtime::wasm" not in f.path or f.kind == "promoted" or "::test" in f.path:
+            continue
+        di = None
+        for b, t in f.calls():
+            c = callee(t) or ""
+            if c.split("::")[-1] in ("remove", "clear") and "HashMap" in c and t[5]:
+                di = di or DefIndex(f)
+                if map_field(f, di, t[5][0]) == fld:
+                    removers.append(f)
+    key = "closure-state|reset"
+    if not removers:
+        ck.bad(R, key, "%s creates the state of a closure lazily under its address and nothing ever removes an entry of %s: a closure created at an address that was used before (every tick re-uses the bump allocator's addresses) starts with the previous occupant's state — `fn dsp(){ let k=1.0  let f = | |{self+k}  f() }` counts 1,2,3,… on WASM and stays 1 on the VM" % (lazy[0].short, fld.split("::")[-1]), lazy[0].where(lazy[1]))
+        return
+    dis = {}
+
+    def _str_of(di, cur):
+        for _ in range(6):
+            r = di.resolve(cur) if cur[0] != "c" else ("const", cur)
+            if r[0] == "const":
+                return const_str(r[1])
+            if r[0] == "rv" and r[1][5][0] in ("ref", "raw"):
+                cur = ["cp", [r[1][5][1][0], []]]
+                continue
+            return None
+        return None
+
+    # registered name of the remover
+    names = {}
+    for f in lang.fns:
+        if "::runtime::wasm" not in f.path or f.kind == "promoted":
+            continue
+        for b, t in f.calls():
+            if (callee(t) or "").split("::")[-1] != "func_wrap" or len(t[5]) < 4:
+                continue
+            nm = _str_of(dis.setdefault(f.path, DefIndex(f)), t[5][2])
+            fn = const_fn(t[5][3])
+            if nm and fn:
+                names[fn] = nm
+    rn = [names[r.path] for r in removers if r.path in names]
+    ck.require(R, bool(rn), "anchor|reset-import-name", "the host function that forgets a closure's state (%s) is not registered as an import" % removers[0].short)
+    if not rn:
+        return
+    # the generator's slot for that import
+    slot = None
+    for f in lang.fns:
+        if "::compiler::wasmgen" not in f.path or f.kind == "promoted":
+            continue
+        for b, t in f.calls():
+            if (callee(t) or "").split("::")[-1] not in ("add_import", "add_import_from"):
+                continue
+            if not any(_str_of(dis.setdefault(f.path, DefIndex(f)), a) in rn for a in t[5][1:]):
+                continue
+            if t[6] is not None:
+                # stored into a field of the index table
+                dl = t[6]
+                fl = [x for x in place_fields(dl) if x]
+                if fl:
+                    slot = fl[-1]
+                else:
+                    for _, s in f.all_stmts():
+                        if s[KIND] == "a" and s[5][0] == "use" and s[5][1][0] in ("cp", "mv") and s[5][1][1][0] == dl[0] and s[4][1]:
+                            fl = [x for x in place_fields(s[4]) if x]
+                            if fl:
+                                slot = fl[-1]
+    if slot is None:
+        ck.bad(R, key, "the WASM generator never imports `%s`: the host can forget a closure's state but generated code never asks it to" % rn[0], removers[0].where())
+        return
+    emitters = set()
+    for f in lang.fns:
+        if "::compiler::wasmgen" not in f.path or f.kind == "promoted":
+            continue
+        for _, s in f.all_stmts():
+            if s[KIND] == "a" and s[5][0] == "use" and s[5][1][0] in ("cp", "mv") and slot in [x for x in place_fields(s[5][1][1]) if x]:
+                emitters.add(f.path)
+        for _, t in f.calls():
+            for a in t[5]:
+                if a[0] in ("cp", "mv") and slot in [x for x in place_fields(a[1]) if x]:
+                    emitters.add(f.path)
+    ti = [f for f in lang.fns if f.short.endswith("WasmGenerator::translate_instruction")]
+    ck.require(R, len(ti) == 1, "anchor|translate_instruction", "WasmGenerator::translate_instruction not found")
+    if len(ti) != 1:
+        return
+    cov = cover.coverage(facts, ti[0], "mimium_lang::mir::Instruction")
+    n = 0
+    for v in ("MakeClosure", "Closure"):
+        tb = cov.arm_target(v) if cov else None
+        if tb is None:
+            continue
+        n += 1
+        region = reachable(ti[0], tb, stop=[cov.primary.block])
+        hit = any((callee(t) or "") in emitters for b, t in ti[0].calls() if b in region) or (ti[0].path in emitters and any(slot in [x for x in place_fields(a[1]) if x] for b, t in ti[0].calls() if b in region for a in t[5] if a[0] in ("cp", "mv")))
+        k2 = "closure-state|reset-at|%s" % v
+        if hit:
+            ck.ok(R, k2, {"arm": v, "import": rn[0], "slot": slot.split("::")[-1]})
+        else:
+            ck.bad(R, k2, "the WASM generator's arm for %s allocates a closure and does not emit a call of `%s`: the host keeps the state of whatever closure used that address before" % (v, rn[0]), ti[0].where(ti[0].term(tb)))
+    ck.floor(R, "closure_creating_arms", n, 2)
